@@ -3,12 +3,12 @@
 # mutants/<ID>/{not-property-breaking,equivalent,outside-statement}/*.patch) through an overlay against the check of
 # their own property and of every property anchored in a package they touch (patches under mutants/: own property only -
 # they may well break ANOTHER property). Every check must stay SILENT (exit 0).
-# Env: JOBS (default 4) changes run in parallel.
+# Env: JOBS (default 4) changes run in parallel; OWNONLY=1 runs only the check of the change's own property.
 cd "$(dirname "$(readlink -f "$0")")/.."
 glob=${1:-*}; tier=${2:-quick}
 one() {
   patch=$1; ID=$2; tier=$3; label=$4
-  case "$patch" in mutants/*) ids=$ID;; *) ids=$(python3 - "$patch" "$ID" <<'PY'
+  case "${OWNONLY:-0}$patch" in 1*|0mutants/*) ids=$ID;; *) ids=$(python3 - "$patch" "$ID" <<'PY'
 import json,sys,re,collections
 m=collections.defaultdict(set)
 for l in open('/verif/properties.jsonl'):
